@@ -34,7 +34,15 @@ def checkSqlr : P String := do
   let status ← next
   let mut res : Option Frame := none
   let mut partialFrame := false
-  if status == "ok" then res := some (← pFrame)
+  let mut post : Option (Row × String × Frame) := none
+  if status == "ok" then
+    res := some (← pFrame)
+    if (← peek?) == some "POST" then
+      let _ ← next
+      let row ← pRow
+      let pst ← next
+      let fr ← pFrame
+      post := some (row, pst, fr)
   else if (← peek?) == some "PARTIAL" then
     let _ ← next
     partialFrame := true
@@ -58,11 +66,21 @@ def checkSqlr : P String := do
   | _, _ => corr := "fail:status"
   let hasNull := rows.any (fun r => r.any (· == .nil))
   let nontriv := status == "ok" && rows.length ≥ 2 && hasNull
-  let c20 := if status == "panic" then "fail:panic" else "ok"
+  -- C20: a nil handle, an empty query, an unknown handler string or a handler of the wrong type is an invalid
+  -- request; accepting it (where the specification demands an error) is a C20 failure too
+  let invalidReq := nilHandle || query.isEmpty || hk == 5 || hk == 6
+  let c20 := if status == "panic" then "fail:panic"
+    else if invalidReq && c14 == "fail:error-swallowed" then "fail:invalid-request-accepted" else "ok"
   -- C01 on an import: whatever is returned is rectangular and stored under own names
-  let c01 := match res with
+  let mut c01 := match res with
     | some f => if f.rect? then "ok" else "fail:not-rectangular"
     | none => "ok"
+  -- a row appended to the imported frame lands in its own row and nowhere else
+  match res, post with
+  | some f, some (row, pst, fr) =>
+    if pst != "ok" then c01 := firstFail c01 s!"fail:append-after-import-{pst}"
+    else if fr != f.appendRow row then c01 := firstFail c01 "fail:append-after-import-moved-cells"
+  | _, _ => pure ()
   pure s!"c01={c01} c14={c14} c20={c20} corr={corr} nontrivial={if nontriv then 1 else 0} st_handler={hk} st_entry={entry} st_status={status}"
 
 end Goframe.Driver
